@@ -451,9 +451,12 @@ func genCase(r *hutil.Rand, prop string, i int) (genLine, string, runMode) {
 		case 0, 1, 2:
 			g = genForm(r, []string{"accepted_key", "accepted_cert", "accepted_password", "accepted_key_padded"}[(i/4+i)%4])
 		default:
-			if r.Bool() {
+			switch r.Intn(3) {
+			case 0:
 				g = genForm(r, hutil.Pick(r, formNamesAll))
-			} else {
+			case 1:
+				g = genClientName(r) // failure lines with client-chosen names (incl. complete "Accepted ..." messages)
+			default:
 				g = genHostile(r)
 			}
 		}
